@@ -1,6 +1,7 @@
 import XmpProofs.Seq
 import XmpProofs.Tick
 import XmpProofs.Virt
+import XmpProofs.Fx
 /-!
 # C16 — Every frame reports a consistent, in-range player state
 
@@ -324,6 +325,170 @@ theorem C16_reachable_info_total {m : SeqMod} (h : WF m) (ho : OrdWF m) (hist : 
       InfoOk m (frameInfo m s') ∧ (frameInfo m s').row < (frameInfo m s').numRows ∧ 0 < s'.ftBpm :=
   ⟨(C16_reachable_total h ho hist s hc hr he).1, C16_reachable_info h hist s hc hr he⟩
 
+/-! ### xmp_play_buffer: a call plays zero or more frames and nothing else
+
+`Seq.playBuffer m loop s effs` is the sequencer side of `xmp_play_buffer(ctx, out, size, loop)`:
+frames while the caller's buffer wants data, stopping at the first failed frame and after the first
+frame that reaches the loop limit.  `Api` adds it to the histories. -/
+
+/-- **C16_play_buffer**: from a state satisfying the boundary invariants, with effect outcomes
+inside `EffOk`, every state `xmp_play_buffer` passes through (after each of the frames it plays,
+for ANY loop limit and ANY number of frames demanded) is `Playing`, satisfies the row invariant,
+has its frame time computed from the reported tempo, and reports a loop counter at least the one
+before the call; the state the call leaves behind (`lastOr s`: the last of them, or `s`
+itself when no frame succeeded) satisfies the boundary invariants again and its loop counter is
+at least the one before the call — in particular the `-XMP_END` return (loop limit reached or
+module ended) does not lower it. -/
+theorem C16_play_buffer {m : SeqMod} (h : WF m) (loop : Int) : ∀ (effs : List (Eff × Eff)) (s : St), Core m s → RowInv m s →
+    (∀ e ∈ effs, EffOk e.1 ∧ EffOk e.2) →
+    (∀ s' ∈ playBuffer m loop s effs, Playing m s' ∧ RowInv m s' ∧ s'.ftBpm = s'.bpm ∧ s.loopCount ≤ s'.loopCount) ∧
+    Core m (lastOr s (playBuffer m loop s effs)) ∧ RowInv m (lastOr s (playBuffer m loop s effs)) ∧
+    s.loopCount ≤ (lastOr s (playBuffer m loop s effs)).loopCount := by
+  intro effs
+  induction effs with
+  | nil => intro s hc hr _; exact ⟨fun s' hs' => by simp [playBuffer] at hs', by simpa [playBuffer, lastOr] using hc,
+      by simpa [playBuffer, lastOr] using hr, by simp [playBuffer, lastOr]⟩
+  | cons e rest ih =>
+    intro s hc hr he
+    have he1 := he e (List.mem_cons_self ..)
+    unfold playBuffer
+    cases hq : playFrame m s e.1 e.2 with
+    | ok s1 =>
+      obtain ⟨p1, r1, f1⟩ := C16_inv_frame h hc hr he1.1 he1.2 hq
+      have l1 := C16_loop_monotone h hc he1.1 he1.2 hq
+      simp only
+      by_cases hl : loop > 0 ∧ s1.loopCount ≥ loop
+      · rw [if_pos hl]
+        refine ⟨fun s' hs' => ?_, ?_, ?_, ?_⟩
+        · simp only [List.mem_singleton] at hs'; subst hs'; exact ⟨p1, r1, f1, l1⟩
+        · simpa [lastOr] using p1.core
+        · simpa [lastOr] using r1
+        · simpa [lastOr] using l1
+      · rw [if_neg hl]
+        obtain ⟨a, b, c, d⟩ := ih s1 p1.core r1 (fun x hx => he x (List.mem_cons_of_mem _ hx))
+        have hlast : lastOr s (s1 :: playBuffer m loop s1 rest) = lastOr s1 (playBuffer m loop s1 rest) := rfl
+        refine ⟨fun s' hs' => ?_, ?_, ?_, ?_⟩
+        · rcases List.mem_cons.mp hs' with e' | e'
+          · subst e'; exact ⟨p1, r1, f1, l1⟩
+          · obtain ⟨x1, x2, x3, x4⟩ := a s' e'; exact ⟨x1, x2, x3, by omega⟩
+        · rw [hlast]; exact b
+        · rw [hlast]; exact c
+        · rw [hlast]; omega
+    | fin => exact ⟨fun s' hs' => by simp at hs', by simpa [lastOr] using hc, by simpa [lastOr] using hr, by simp [lastOr]⟩
+    | diverge => exact ⟨fun s' hs' => by simp at hs', by simpa [lastOr] using hc, by simpa [lastOr] using hr, by simp [lastOr]⟩
+
+/-- API histories: single frames, position-control calls (incl. the `xmp_play_buffer(NULL)` reset
+entry, `Ctl.bufReset`) and `xmp_play_buffer` calls with any loop limit. -/
+inductive Api where
+  | frame (eA eB : Eff)
+  | ctl (c : Ctl)
+  | buffer (loop : Int) (effs : List (Eff × Eff))
+
+/-- states after every successful frame of an API history, those inside `xmp_play_buffer` calls
+included (a diverging single frame ends the history, as in `frames`) -/
+def framesApi (m : SeqMod) : St → List Api → List St
+  | _, [] => []
+  | s, .frame a b :: rest =>
+    match playFrame m s a b with
+    | .ok s' => s' :: framesApi m s' rest
+    | .fin => framesApi m s rest
+    | .diverge => []
+  | s, .ctl c :: rest => framesApi m (ctl m s c) rest
+  | s, .buffer loop effs :: rest =>
+    playBuffer m loop s effs ++ framesApi m (lastOr s (playBuffer m loop s effs)) rest
+
+def ApiEffsOk : List Api → Prop
+  | [] => True
+  | .frame a b :: rest => EffOk a ∧ EffOk b ∧ ApiEffsOk rest
+  | .ctl _ :: rest => ApiEffsOk rest
+  | .buffer _ effs :: rest => (∀ e ∈ effs, EffOk e.1 ∧ EffOk e.2) ∧ ApiEffsOk rest
+
+/-- no position-control call (and no buffer reset) in the history -/
+def NoCtl : List Api → Prop
+  | [] => True
+  | .ctl _ :: _ => False
+  | _ :: rest => NoCtl rest
+
+/-- **C16_reachable_api** (`C16_reachable` for histories that also contain `xmp_play_buffer`
+calls with any loop limit and the reset entry): after every successful frame — played directly or
+inside a buffer call, before or after a buffer call reported `-XMP_END`, with no restart needed —
+the state is `Playing`, satisfies the row invariant, and the frame time was computed from the
+reported tempo. -/
+theorem C16_reachable_api {m : SeqMod} (h : WF m) : ∀ (hist : List Api) (s : St), Core m s → RowInv m s → ApiEffsOk hist →
+    ∀ s' ∈ framesApi m s hist, Playing m s' ∧ RowInv m s' ∧ s'.ftBpm = s'.bpm := by
+  intro hist
+  induction hist with
+  | nil => intro s _ _ _ s' hs'; simp [framesApi] at hs'
+  | cons c rest ih =>
+    intro s hc hr he s' hs'
+    cases c with
+    | frame a b =>
+      obtain ⟨ea, eb, er⟩ := he
+      unfold framesApi at hs'
+      split at hs'
+      · rename_i s1 hf
+        obtain ⟨p1, r1, f1⟩ := C16_inv_frame h hc hr ea eb hf
+        rcases List.mem_cons.mp hs' with e | e
+        · subst e; exact ⟨p1, r1, f1⟩
+        · exact ih s1 p1.core r1 er s' e
+      · exact ih s hc hr er s' hs'
+      · simp at hs'
+    | ctl c =>
+      unfold framesApi at hs'
+      obtain ⟨c1, r1⟩ := C16_inv_control h hc hr c
+      exact ih _ c1 r1 he s' hs'
+    | buffer loop effs =>
+      obtain ⟨eb, er⟩ := he
+      unfold framesApi at hs'
+      obtain ⟨a, b, c, _⟩ := C16_play_buffer h loop effs s hc hr eb
+      rcases List.mem_append.mp hs' with e | e
+      · obtain ⟨x1, x2, x3, _⟩ := a s' e; exact ⟨x1, x2, x3⟩
+      · exact ih _ b c er s' e
+
+/-- **C16_loop_monotone_api**: over any run of `xmp_play_frame` and `xmp_play_buffer` calls (any
+loop limits, any buffer sizes, continuing after `-XMP_END`) with no position-control call and no
+buffer reset in between, the loop counter reported after each successful frame is at least the one
+before the run (applied to every suffix: the reported sequence never decreases). -/
+theorem C16_loop_monotone_api {m : SeqMod} (h : WF m) : ∀ (hist : List Api) (s : St), Core m s → RowInv m s →
+    ApiEffsOk hist → NoCtl hist → ∀ s' ∈ framesApi m s hist, s.loopCount ≤ s'.loopCount := by
+  intro hist
+  induction hist with
+  | nil => intro s _ _ _ _ s' hs'; simp [framesApi] at hs'
+  | cons c rest ih =>
+    intro s hc hr he hn s' hs'
+    cases c with
+    | frame a b =>
+      obtain ⟨ea, eb, er⟩ := he
+      unfold framesApi at hs'
+      split at hs'
+      · rename_i s1 hf
+        obtain ⟨p1, r1, _⟩ := C16_inv_frame h hc hr ea eb hf
+        have l1 := C16_loop_monotone h hc ea eb hf
+        rcases List.mem_cons.mp hs' with e | e
+        · subst e; exact l1
+        · have := ih s1 p1.core r1 er hn s' e; omega
+      · exact ih s hc hr er hn s' hs'
+      · simp at hs'
+    | ctl c => exact absurd hn (by simp [NoCtl])
+    | buffer loop effs =>
+      obtain ⟨eb, er⟩ := he
+      unfold framesApi at hs'
+      obtain ⟨a, b, c, d⟩ := C16_play_buffer h loop effs s hc hr eb
+      rcases List.mem_append.mp hs' with e | e
+      · exact (a s' e).2.2.2
+      · have := ih _ b c er hn s' e; omega
+
+/-- `exMod` loops every 144 rows; a history that plays single frames, then a buffer call with loop
+limit 1 whose frames cross the loop point (the call ends there), then goes on with a further buffer call and a
+frame and no restart: the loop counter after the successful frames is 0, 1, 1, 1 -/
+example : ((framesApi exMod { exPlaying with ord := 2, pos := 2, row := 63, frame := 4, numRows := 64, endPoint := 0 }
+      [.frame noEff noEff, .buffer 1 [(noEff, noEff), (noEff, noEff), (noEff, noEff)], .buffer 1 [(noEff, noEff)],
+       .frame noEff noEff]).map fun s => (s.pos, s.row, s.frame, s.loopCount)) =
+    [(2, 63, 5, 0), (0, 0, 0, 1), (0, 0, 1, 1), (0, 0, 2, 1)] := by
+  decide
+
+example : framesUntilLimit 2 [0, 1, 2, 2] = 3 ∧ framesUntilLimit 0 [3, 4] = 2 ∧ framesUntilLimit 1 [] = 0 := by decide
+
 theorem exMod_ordwf : OrdWF exMod := by unfold OrdWF; decide +kernel
 
 example : Returns exMod exStart exHist := by unfold Returns; decide
@@ -351,6 +516,224 @@ example :
     ordWfB bad = false ∧ nextOrderLoop bad 0 orderFuel 2 false = none := by decide +kernel
 
 end Xmp.Seq
+
+namespace Xmp.Fx
+open Xmp.Seq Xmp.Gen.PlayerConsts
+
+/-! ### The effect stages as sequences of modelled writes (src/effects.c, flow.c, player.c)
+
+`Fx.processFx` is `libxmp_process_fx` restricted to the variables the kernel reads, for every effect
+number and parameter; `Fx.Prim` lists the writes an effect stage can perform (a `process_fx` call
+with any channel state and loop bookkeeping, a whole `read_row` over given events, the speed pre-scan of `check_delay`, an IT tempo slide
+tick, a global-volume write, and `raw` = a write by code that is not modelled — the FAR tempo
+effects — which stays constrained by the monitored `EffOk`).  `EnvOk env` is the only requirement on
+the module: the tempo minimum of label `fx_s3m_bpm` is a non-zero byte. -/
+
+/-- **C16_fx_env_ok**: for the code as it is in /repo (the generated `s3mBpmClamp` is
+`CLAMP(min_bpm, 1, 255)`) `EnvOk` holds for EVERY time factor, quirk set, player mode and flow
+mode: the theorems below then have no hypothesis on the module's effect configuration. -/
+theorem C16_fx_env_ok (env : Env) (h : env.bpmClamp = s3mBpmClamp) : EnvOk env := envOk_generated h
+
+/-- **C16_fx_writer_sites**: EVERY assignment in src/*.c to an effect-owned variable the kernel
+reads (`p->speed`, `p->bpm`, `p->st26_speed`, `f->jump`, `f->jumpline`; list regenerated from the
+sources on every run) sits in a function that is modelled — as part of the kernel (`XmpModel.Seq`),
+as a `Prim` write of an effect stage, or listed as unmodelled (`raw`: `libxmp_far_update_tempo`). A
+new writer makes this theorem fail. -/
+theorem C16_fx_writer_sites : ∀ w ∈ flowWriterSites, writerCovered w = true := by decide
+
+/-- **C16_fx_range** (FxRange): for every effect number, parameter byte, channel, ST3 effect
+memory, pattern-loop bookkeeping, quirk set, player mode, flow mode and every pre-state satisfying
+the frame invariant, ONE modelled write of an effect stage is an instance of the abstract effect
+outcome the C16 invariant theorems quantify over: it equals `applyEff s e` for an `e` inside
+`EffOk`, and the frame invariant survives it.  This discharges the monitored range hypothesis for
+the modelled effects. -/
+theorem C16_fx_range {m : SeqMod} {env : Env} (he : EnvOk env) {s : St} (hp : Playing m s) {p : Prim} (hk : PrimOk env p) :
+    ∃ e, EffOk e ∧ applyPrim env s p = applyEff s e ∧ Playing m (applyPrim env s p) := by
+  obtain ⟨a, b⟩ := applyPrim_ok he (StOk.of_playing hp) hk
+  refine ⟨effOfSt (applyPrim env s p), effOfSt_ok a, (applyEff_effOfSt b).symm, ?_⟩
+  have := (applyEff_spec hp (effOfSt_ok a)).1
+  rwa [applyEff_effOfSt b] at this
+
+/-- **C16_fx_range_call**: the same on the flow record, for one `libxmp_process_fx` call: speed
+stays in 1..255, tempo ≥ 1, `st26_speed` well-formed, `jump ≥ -1`, `jumpline ≥ 0`, whatever the
+effect number (0..255 and beyond), parameter byte, channel, effect memory and loop state. -/
+theorem C16_fx_range_call {env : Env} (he : EnvOk env) {ord row : Int} (chn volMem fxt : Int) {fxp : Int} {f f' : Flow} {vm : Int}
+    (ho : 0 ≤ ord) (hr : 0 ≤ row) (hp : 0 ≤ fxp ∧ fxp ≤ 255) (h : FlowOk f)
+    (hq : processFx env ord row chn volMem fxt fxp f = some (f', vm)) : FlowOk f' :=
+  processFx_ok he chn volMem fxt ho hr hp h hq
+
+/-- **C16_fx_range_row**: a whole `read_row` (speed pre-scan, delay decision, row-delay gate,
+call order of the player mode) over ANY events with byte parameters keeps the range, from any
+channel on, at any tick. -/
+theorem C16_fx_range_row {env : Env} (he : EnvOk env) {ord row : Int} (frame : Int) (ho : 0 ≤ ord) (hr : 0 ≤ row)
+    (chans : List (Ev × Int)) (chn : Int) {f f' : Flow} (hev : ∀ c ∈ chans, EvOk c.1) (h : FlowOk f)
+    (hq : readRow env ord row frame chn chans f = some f') : FlowOk f' :=
+  readRow_ok he frame ho hr chans chn f f' hev h hq
+
+/-- **C16_frame_fx_refines**: a frame whose effect stages perform the writes `psA` (first tick of a
+row) and `psB` is a frame of the abstract model `Seq.playFrame` for effect outcomes inside `EffOk`. -/
+theorem C16_frame_fx_refines {m : SeqMod} (h : WF m) {env : Env} (he : EnvOk env) {s : St} (hc : Core m s) {psA psB : List Prim}
+    (hA : PrimsOk env psA) (hB : PrimsOk env psB) :
+    ∃ eA eB, EffOk eA ∧ EffOk eB ∧ playFrameFx m env s psA psB = playFrame m s eA eB :=
+  playFrameFx_eq h.facts he hc hA hB
+
+/-- **C16_inv_frame_fx** (`C16_inv_frame` with the effects as input): every successful
+`xmp_play_frame` from a state satisfying the boundary invariants, whose effect stages perform ANY
+sequences of modelled writes, ends in a `Playing` state that satisfies the row invariant and whose
+frame time was computed from the reported tempo.  No range hypothesis on what the effects leave
+behind. -/
+theorem C16_inv_frame_fx {m : SeqMod} (h : WF m) {env : Env} (he : EnvOk env) {s s' : St} (hc : Core m s) (hr : RowInv m s)
+    {psA psB : List Prim} (hA : PrimsOk env psA) (hB : PrimsOk env psB) (hf : playFrameFx m env s psA psB = .ok s') :
+    Playing m s' ∧ RowInv m s' ∧ s'.ftBpm = s'.bpm ∧ s.loopCount ≤ s'.loopCount := by
+  obtain ⟨eA, eB, a, b, e⟩ := C16_frame_fx_refines h he hc hA hB
+  rw [e] at hf
+  obtain ⟨x, y, z⟩ := C16_inv_frame h hc hr a b hf
+  exact ⟨x, y, z, C16_loop_monotone h hc a b hf⟩
+
+/-- **C16_inv_frame_fx_total**: with the order-list clause `OrdWF` there is no third outcome. -/
+theorem C16_inv_frame_fx_total {m : SeqMod} (h : WF m) (ho : OrdWF m) {env : Env} (he : EnvOk env) {s : St} (hc : Core m s)
+    (hr : RowInv m s) {psA psB : List Prim} (hA : PrimsOk env psA) (hB : PrimsOk env psB) :
+    playFrameFx m env s psA psB = .fin ∨
+    ∃ s', playFrameFx m env s psA psB = .ok s' ∧ Playing m s' ∧ RowInv m s' ∧ s'.ftBpm = s'.bpm := by
+  obtain ⟨eA, eB, a, b, e⟩ := C16_frame_fx_refines h he hc hA hB
+  rw [e]
+  exact C16_inv_frame_total h ho hc hr a b
+
+/-- histories whose frames carry the writes of their effect stages -/
+inductive CallFx where
+  | frame (psA psB : List Prim)
+  | ctl (c : Ctl)
+
+def framesFx (m : SeqMod) (env : Env) : St → List CallFx → List St
+  | _, [] => []
+  | s, .frame a b :: rest =>
+    match playFrameFx m env s a b with
+    | .ok s' => s' :: framesFx m env s' rest
+    | .fin => framesFx m env s rest
+    | .diverge => []
+  | s, .ctl c :: rest => framesFx m env (ctl m s c) rest
+
+def HistOk (env : Env) : List CallFx → Prop
+  | [] => True
+  | .frame a b :: rest => PrimsOk env a ∧ PrimsOk env b ∧ HistOk env rest
+  | .ctl _ :: rest => HistOk env rest
+
+/-- **C16_reachable_fx** (`C16_reachable` with the effects as input instead of abstract flow
+values): for EVERY history of frames — each with ANY sequences of effect writes: any effect
+numbers, parameters, channels, effect memories, loop states — and position-control calls (any
+arguments, incl. the buffer reset), from any state satisfying the boundary invariants: after every
+successful frame the state is `Playing`, satisfies the row invariant, and the frame time was
+computed from the reported tempo. -/
+theorem C16_reachable_fx {m : SeqMod} (h : WF m) {env : Env} (he : EnvOk env) : ∀ (hist : List CallFx) (s : St), Core m s →
+    RowInv m s → HistOk env hist → ∀ s' ∈ framesFx m env s hist, Playing m s' ∧ RowInv m s' ∧ s'.ftBpm = s'.bpm := by
+  intro hist
+  induction hist with
+  | nil => intro s _ _ _ s' hs'; simp [framesFx] at hs'
+  | cons c rest ih =>
+    intro s hc hr hh s' hs'
+    cases c with
+    | frame a b =>
+      obtain ⟨ea, eb, er⟩ := hh
+      unfold framesFx at hs'
+      split at hs'
+      · rename_i s1 hf
+        obtain ⟨p1, r1, f1, _⟩ := C16_inv_frame_fx h he hc hr ea eb hf
+        rcases List.mem_cons.mp hs' with e | e
+        · subst e; exact ⟨p1, r1, f1⟩
+        · exact ih s1 p1.core r1 er s' e
+      · exact ih s hc hr er s' hs'
+      · simp at hs'
+    | ctl c =>
+      unfold framesFx at hs'
+      obtain ⟨c1, r1⟩ := C16_inv_control h hc hr c
+      exact ih _ c1 r1 hh s' hs'
+
+/-- **C16_reachable_fx_info**: the same on what `xmp_get_frame_info` reports: `0 ≤ pos < len`,
+`pattern = xxo[pos] < pat`, `0 ≤ row < rows(pattern)`, `1 ≤ speed ≤ 255`, `bpm > 0`,
+`frame_time > 0`, valid sequence. -/
+theorem C16_reachable_fx_info {m : SeqMod} (h : WF m) {env : Env} (he : EnvOk env) (hist : List CallFx) (s : St) (hc : Core m s)
+    (hr : RowInv m s) (hh : HistOk env hist) : ∀ s' ∈ framesFx m env s hist,
+    InfoOk m (frameInfo m s') ∧ (frameInfo m s').row < (frameInfo m s').numRows ∧ 0 < s'.ftBpm := by
+  intro s' hs'
+  obtain ⟨p, r, _⟩ := C16_reachable_fx h he hist s hc hr hh s' hs'
+  obtain ⟨a, b, c⟩ := C16_frame_info h p
+  refine ⟨a, c r.numOk ?_, b⟩
+  have := r.numOk; have := r.rowLt; unfold Fresh at *; omega
+
+/-! #### Non-vacuity and the two excluded points
+
+`exEnv`: a Scream Tracker 3 module (ST3 reader, ST3 effect memory, global loop target and count,
+loop end advances), default time factor 10, 4 channels. -/
+def exEnv : Env :=
+  { quirk := quirkSt3bugs, flags := 0, readEvent := readEventSt3, flowMode := flowLoopGlobalTarget + flowLoopGlobalCount +
+      flowLoopEndAdvances + flowLoopPatternReset, tfN := 10, tfD := 1, gvolbase := 64, chn := 4, far := false }
+
+example : EnvOk exEnv := C16_fx_env_ok exEnv rfl
+
+/-- a row with `A03` (speed 3), `T00` (tempo 0: clamped to the minimum 20), `C10` (break to row
+10) and `SB0`/`SB2` (loop start, loop twice) on `exPlaying`: speed 3, tempo 20, pending break to
+row 10, loop jump to row 3 armed -/
+def exRowPrims : List Prim :=
+  [.cdSpeed { fxt := fxS3mSpeed, fxp := 3, f2t := 0, f2p := 0 }, .fx {} 0 0 fxS3mSpeed 3, .fx {} 1 0 fxS3mBpm 0,
+   .fx {} 2 0 fxBreak 0x10, .fx {} 3 0 fxExtended 0x60, .fx { loopStart := 3 } 3 0 fxExtended 0x62]
+
+example : PrimsOk exEnv exRowPrims := by
+  intro p hp
+  simp only [exRowPrims, List.mem_cons, List.mem_nil_iff, or_false] at hp
+  rcases hp with h | h | h | h | h | h <;> subst h <;> simp [PrimOk, EvOk, exEnv, fxS3mSpeed]
+
+example :
+    let s := runPrims exEnv exPlaying exRowPrims
+    (s.speed, s.bpm, s.pbreak, s.jumpline, s.loopDest, s.row, s.ord) = (3, 20, 1, 10, 3, 3, 1) := by decide
+
+/-- the same row given as events (`Prim.row`: `read_row` itself decides which writes happen): channel
+0 `A03`, channel 1 `T00`, channel 2 `C10`, channel 3 `SB2` with loop start 3 pending, plus a note
+delay `SD1` with `A05` on a fifth channel (the speed pre-scan applies `A05`, the event itself is
+stored for a later tick) -/
+def exRowEvents : List (Ev × Int) :=
+  [({ fxt := fxS3mSpeed, fxp := 3, f2t := 0, f2p := 0 }, 0), ({ fxt := fxS3mBpm, fxp := 0, f2t := 0, f2p := 0 }, 0),
+   ({ fxt := fxBreak, fxp := 0x10, f2t := 0, f2p := 0 }, 0), ({ fxt := fxExtended, fxp := 0x62, f2t := 0, f2p := 0 }, 0),
+   ({ fxt := fxExtended, fxp := 0xd1, f2t := fxS3mSpeed, f2p := 5 }, 0)]
+
+example : PrimOk exEnv (.row { loopStart := 3 } exRowEvents) := by
+  refine ⟨fun c hc => ?_, rfl⟩
+  simp only [exRowEvents, List.mem_cons, List.mem_nil_iff, or_false] at hc
+  rcases hc with h | h | h | h | h <;> subst h <;> simp [EvOk]
+
+example :
+    let s := applyPrim exEnv exPlaying (.row { loopStart := 3 } exRowEvents)
+    (s.speed, s.bpm, s.pbreak, s.jumpline, s.loopDest) = (5, 20, 1, 10, 3) := by decide
+
+/-- a history inside the hypotheses of `C16_reachable_fx`: that row on the first tick of a row, then
+plain frames; the break lands on order 2 (pattern 0) row 10 at speed 3, tempo 20 -/
+def exHistFx : List CallFx :=
+  [.frame [] [], .frame [] [], .frame [] [], .frame exRowPrims [], .frame [] [.tempoSlide 5], .frame [] [], .frame [] []]
+
+example : ((framesFx exMod exEnv exPlaying exHistFx).map fun s => (s.pos, s.row, s.frame, s.speed, s.bpm)) =
+    [(1, 3, 3, 6, 125), (1, 3, 4, 6, 125), (1, 3, 5, 6, 125), (1, 4, 0, 3, 20), (1, 4, 1, 3, 32), (1, 4, 2, 3, 32),
+     (2, 10, 0, 3, 32)] := by
+  decide
+
+/-- **C16_fx_unclamped_counterexample** (regression witness of the finding `bpm:min_bpm_clamp`,
+fixed in /repo 694de7b): WITHOUT the clamp of `min_bpm` (`bpmClamp := none`, the code before the
+fix) `EnvOk` fails at the two excluded points and the tempo becomes 0:
+time factor 128 (`xmp_set_tempo_factor(12.8)`): the minimum is 256, stored in a byte as 0 — `T80`
+(and every other tempo effect) sets tempo 0; time factor 0.2 (`xmp_set_tempo_factor(0.02)`): the
+minimum is 0 — `T00` sets tempo 0.  With the clamp both give a tempo of at least 1. -/
+theorem C16_fx_unclamped_counterexample :
+    let hi : Env := { exEnv with tfN := 128, bpmClamp := none }
+    let lo : Env := { exEnv with tfN := 1, tfD := 5, bpmClamp := none }
+    let f : Flow := toFlow exPlaying {}
+    (¬ EnvOk hi) ∧ (¬ EnvOk lo) ∧ hi.minBpmEff = 256 ∧ lo.minBpmEff = 0 ∧
+    ((processFx hi 1 3 0 0 fxS3mBpm 0x80 f).map fun r => r.1.bpm) = some 0 ∧
+    ((processFx lo 1 3 0 0 fxS3mBpm 0 f).map fun r => r.1.bpm) = some 0 ∧
+    ((processFx { hi with bpmClamp := some (1, 255) } 1 3 0 0 fxS3mBpm 0x80 f).map fun r => r.1.bpm) = some 255 ∧
+    ((processFx { lo with bpmClamp := some (1, 255) } 1 3 0 0 fxS3mBpm 0 f).map fun r => r.1.bpm) = some 1 := by
+  refine ⟨?_, ?_, by decide, by decide, by decide, by decide, by decide, by decide⟩
+  · intro h; exact absurd h.2 (by decide)
+  · intro h; exact absurd h.1 (by decide)
+
+end Xmp.Fx
 
 namespace Xmp.Tick
 open Xmp.Gen.PlayerConsts
